@@ -115,24 +115,10 @@ def _nontrivial(lab, H):
     return None
 
 
-def _outran_enqueue(lab, H, m):
-    """The storage announced the freshly written id through wait() and an attempt of it
-    started before write() had even returned the id to Queue.enqueue()."""
-    wseq = aseq = None
-    for s, e in enumerate(lab.events):
-        if e[1] == 'store' and e[2] == 'write' and e[3] == m and wseq is None:
-            wseq = s
-        if e[1] == 'store_ret' and e[2] == 'write' and e[3] == m:
-            wseq = s       # the write's return reached Queue.enqueue only here
-        if aseq is None and e[1] == 'attempt_start' and e[2] == m:
-            aseq = s
-    return wseq is not None and aseq is not None and aseq < wseq
-
-
 def _classify(lab, H, kind, m, d):
     be = lab.cfg.get('backend')
     crash = L.crash_tag(lab)
-    if kind in ('resend', 'overlap') and _outran_enqueue(lab, H, m):
+    if kind in ('resend', 'overlap') and C.outran_enqueue(lab, H, m):
         return '%s/%s/self-announcement-outran-enqueue' % (kind, be)
     if kind == 'resend':
         seq = lab.events.index(d['attempt'])
